@@ -21,18 +21,18 @@ Definition push_parts (st : mstate) (ps : list part) : mstate :=
   | (f :: fs, root) => (mkFrame (fr_tok f) (fr_el f) (fr_children f ++ ps) :: fs, root)
   end.
 
-(** An unclosed opener becomes a text node followed by its former children. *)
-Definition demote (f : frame) : list part := PText (fr_tok f) :: fr_children f.
-
-(** Close the innermost frame named [name] with the closing token [t]: frames above it are
-    demoted into the frame below, one after the other. *)
-Fixpoint close_frame (name : str) (t : token) (stack : list frame) (root : list part) : mstate :=
+(** Close the innermost frame named [name] with the closing token [t].  Frames above it are
+    demoted: an unclosed opener becomes a text node followed by its former children, and these
+    parts ([carry]) go to the end of the frame below. *)
+Fixpoint close_frame (name : str) (t : token) (stack : list frame) (root : list part)
+         (carry : list part) : mstate :=
   match stack with
-  | [] => ([], root)
+  | [] => ([], root ++ carry)
   | f :: fs =>
+    let children := fr_children f ++ carry in
     if str_eqb (el_name (fr_el f)) name
-    then push_parts (fs, root) [PElem (fr_el f) (fr_tok f) t (fr_children f)]
-    else let '(fs', root') := push_parts (fs, root) (demote f) in close_frame name t fs' root'
+    then push_parts (fs, root) [PElem (fr_el f) (fr_tok f) t children]
+    else close_frame name t fs root (PText (fr_tok f) :: children)
   end.
 
 Definition is_closer (el : element) (stack : list frame) : bool :=
@@ -44,19 +44,19 @@ Definition mstep (cls : token -> option element) (st : mstate) (t : token) : mst
   | None => push_parts st [PText t]
   | Some el =>
     if is_closer el (fst st)
-    then close_frame (trim_slashes (el_name el)) t (fst st) (snd st)
+    then close_frame (trim_slashes (el_name el)) t (fst st) (snd st) []
     else (mkFrame t el [] :: fst st, snd st)
   end.
 
 (** At the end of the input every open frame is demoted. *)
-Fixpoint finish (stack : list frame) (root : list part) : list part :=
+Fixpoint finish (stack : list frame) (root : list part) (carry : list part) : list part :=
   match stack with
-  | [] => root
-  | f :: fs => let '(fs', root') := push_parts (fs, root) (demote f) in finish fs' root'
+  | [] => root ++ carry
+  | f :: fs => finish fs root (PText (fr_tok f) :: fr_children f ++ carry)
   end.
 
 Definition stack_tree (cls : token -> option element) (tokens : list token) : list part :=
-  let '(stack, root) := fold_left (mstep cls) tokens ([], []) in finish stack root.
+  let '(stack, root) := fold_left (mstep cls) tokens ([], []) in finish stack root [].
 
 (** Every token of a tree, in document order. *)
 Fixpoint flatten_part (p : part) : list token :=
